@@ -1111,10 +1111,14 @@ decLoop:
 		tempProperty := asciiLower(dec.Property)
 		// (decode first: an escape may stand for an upper-case letter)
 		tempValue := asciiLower(removeUnicode(dec.Value))
+		// a rule that was itself registered under a prefixed name
+		// (AllowStyles("-webkit-box-shadow")) is found under the name as
+		// written, all others under the name without vendor prefix
+		fullProperty := tempProperty
 		for _, i := range prefixes {
 			tempProperty = strings.TrimPrefix(tempProperty, i)
 		}
-		if spl, ok := sps[tempProperty]; ok {
+		if spl, ok := stylePoliciesFor(sps, tempProperty, fullProperty); ok {
 			for _, sp := range spl {
 				if sp.handler != nil {
 					if sp.handler(tempValue) {
@@ -1134,7 +1138,7 @@ decLoop:
 				}
 			}
 		}
-		if spl, ok := p.globalStyles[tempProperty]; ok {
+		if spl, ok := stylePoliciesFor(p.globalStyles, tempProperty, fullProperty); ok {
 			for _, sp := range spl {
 				if sp.handler != nil {
 					if sp.handler(tempValue) {
@@ -1161,6 +1165,18 @@ decLoop:
 		attr.Val = ""
 	}
 	return attr
+}
+
+// stylePoliciesFor returns the style rules registered in m for a property,
+// given its name without vendor prefix and its name as written (lower case).
+func stylePoliciesFor(m map[string][]stylePolicy, stripped, full string) ([]stylePolicy, bool) {
+	spl, ok := m[stripped]
+	if full != stripped {
+		if more, ok2 := m[full]; ok2 {
+			spl, ok = append(append([]stylePolicy{}, spl...), more...), true
+		}
+	}
+	return spl, ok
 }
 
 func (p *Policy) allowNoAttrs(elementName string) bool {
